@@ -7,11 +7,10 @@ CONSTANTS
   Guide <- W_Guide
   MaxSteps = 5
   AllowCrash = FALSE
-  AvoidPanics = FALSE
+  AvoidPanics = TRUE
   EmitAll = FALSE
 INIT Init
 NEXT Next
 VIEW View
 CHECK_DEADLOCK FALSE
-INVARIANTS C04_Chain C07_ViewVS
-PROPERTIES C04_Immutable C04_Monotone
+INVARIANTS C11_SMFresh C11_GossipFresh
